@@ -190,7 +190,7 @@ class C01Machine(TraceMachine):
             ops.stage_transfer(odb, entry[0], name=odb.hash_name, shallow=shallow)
         self.labels.add("stage_transfer" + ("-shallow" if shallow else "") + ("-all" if item < 0 else ""))
 
-    @rule(store=st.integers(0, 2), item=st.one_of(st.just(-1), st.just(-1), st.integers(0, 7)))
+    @rule(store=st.one_of(st.just(-1), st.integers(0, 2)), item=st.one_of(st.just(-1), st.just(-1), st.integers(0, 7)))
     @traced
     def stage_only(self, store, item):
         """build() without the transfer (what a status-style caller does; item -1 = every pool item, as a status
@@ -201,11 +201,11 @@ class C01Machine(TraceMachine):
 
         if not self.pool:
             return
-        odb = self.odbs[store]
         todo = self.pool if item < 0 else [self.pool[item % len(self.pool)]]
-        for entry in todo:
-            build(odb, entry[0], LocalFileSystem(), odb.hash_name)
-        self.labels.add("stage_only" + ("-all" if item < 0 else ""))
+        for odb in (self.odbs[:3] if store < 0 else [self.odbs[store]]):  # store -1 = against every cache
+            for entry in todo:
+                build(odb, entry[0], LocalFileSystem(), odb.hash_name)
+        self.labels.add("stage_only" + ("-all" if item < 0 else "") + ("-every-store" if store < 0 else ""))
 
     @rule(fidx=st.integers(0, 40), src=st.integers(0, 40),
           backup=st.one_of(st.none(), st.integers(0, 40), st.integers(0, 40), st.integers(0, 40)),
@@ -256,7 +256,7 @@ class C01Machine(TraceMachine):
         if sum(1 for g in self.files if g[1] == new) >= 2:
             self.labels.add("content-at>=2-paths")
 
-    @rule(store=st.integers(0, 1), item=st.integers(0, 7))
+    @rule(store=st.integers(0, 1), item=st.one_of(st.just(-1), st.integers(0, 7), st.integers(0, 7)))
     @traced
     def stage_upload(self, store, item):
         from dvc_objects.fs.local import LocalFileSystem
@@ -267,10 +267,10 @@ class C01Machine(TraceMachine):
         if not self.pool:
             return
         odb = self.odbs[store]
-        path = self.pool[item % len(self.pool)][0]
-        staging, _meta, obj = build(odb, path, LocalFileSystem(), "md5", upload=True)
-        transfer(staging, odb, {obj.hash_info}, shallow=False, hardlink=False)
-        self.labels.add("stage_upload")
+        for entry in (self.pool if item < 0 else [self.pool[item % len(self.pool)]]):
+            staging, _meta, obj = build(odb, entry[0], LocalFileSystem(), "md5", upload=True)
+            transfer(staging, odb, {obj.hash_info}, shallow=False, hardlink=False)
+        self.labels.add("stage_upload" + ("-all" if item < 0 else ""))
 
     @rule(store=st.integers(0, 2), fidx=st.integers(0, 40), hardlink=st.booleans())
     @traced
@@ -301,9 +301,12 @@ class C01Machine(TraceMachine):
             self.effective.add("xfer")
             self.labels.add("xfer" + ("-hardlink" if hardlink else "") + ("" if shallow else "-expanded"))
 
-    @rule(store=st.integers(0, 1), item=st.integers(0, 7))
+    @rule(store=st.integers(0, 1), item=st.integers(0, 7),
+          dkeys=st.one_of(st.none(), st.lists(st.integers(0, 40), max_size=2)))
     @traced
-    def index_save(self, store, item):
+    def index_save(self, store, item, dkeys=None):
+        """dkeys None: save(index, odb=store).  Otherwise save(index) through the index's storage map (see
+        _index_save_mapped) with `store` as the cache at the root key."""
         from dvc_objects.fs.local import LocalFileSystem
 
         from dvc_data.index import build as ibuild
@@ -311,6 +314,9 @@ class C01Machine(TraceMachine):
         from dvc_data.index import save as isave
 
         if not self.pool:
+            return
+        if dkeys is not None:
+            self._index_save_mapped(item, dkeys, store)
             return
         path, isdir, flat = self.pool[item % len(self.pool)]
         idx = ibuild(os.path.dirname(path), LocalFileSystem())
@@ -321,9 +327,7 @@ class C01Machine(TraceMachine):
             self.effective.add("index_save-nested")
             self.labels.add("index_save-nested")
 
-    @rule(item=st.integers(0, 7), dkeys=st.lists(st.integers(0, 40), max_size=2), cache_root=st.sampled_from([0, 0, 1]))
-    @traced
-    def index_save_mapped(self, item, dkeys, cache_root):
+    def _index_save_mapped(self, item, dkeys, cache_root):
         """index build -> hash -> save(index) WITHOUT an explicit odb: the cache is resolved through the index's
         storage map - an md5 store (L or G) as cache at the root key and the legacy D store registered as cache at
         0-2 drawn file or directory keys of the saved tree (a partly migrated repository).  The honest caller
@@ -335,8 +339,6 @@ class C01Machine(TraceMachine):
         from dvc_data.index import build as ibuild
         from dvc_data.index import save as isave
 
-        if not self.pool:
-            return
         path, isdir, body = self.pool[item % len(self.pool)]
         flat = dict(body) if isdir else {"": body}
         fkeys = {("t", *rel.split("/")) if rel else ("t",): data for rel, data in flat.items()}
